@@ -92,12 +92,39 @@ def check_geneq(prop, status, make_timeout=1200):
         if failed_kernels:
             why = '; rs2v could not regenerate ' + ', '.join('%s (%s)' % (k['kernel'], k.get('error', '')[:160]) for k in failed_kernels)
         if m and m.group(1) == rel:
-            line = int(m.group(2))
-            before = [(n, l) for n, l in ls if l <= line]
-            name = before[-1][0] if before else '?'
-            res['discharged'] += [n for n, l in ls if l < (before[-1][1] if before else 0)]
-            msg = ' '.join(m.group(3).split('make:')[0].split())[:300]
-            res['broken'].append('geneq:%s (%s:%d) no longer holds for the current source: %s%s' % (name, rel, line, msg, why))
+            # name EVERY lemma of the file that no longer holds: cut the failing lemma out of a scratch
+            # copy (work/, never under coq/) and recompile until the rest goes through
+            txt = open(os.path.join(COQ, rel)).read()
+            bad, good = [], [n for n, _ in ls]
+            os.makedirs(os.path.join(ROOT, 'work'), exist_ok=True)
+            probe = os.path.join(ROOT, 'work', 'GenEqProbe_%s.v' % mod)
+            line, msg = int(m.group(2)), ' '.join(m.group(3).split('make:')[0].split())[:300]
+            for _ in range(len(ls) + 1):
+                cur = [(mm.group(1), txt.count('\n', 0, mm.start()) + 1, mm.start()) for mm in LEMMA_RE.finditer(txt)]
+                before = [c for c in cur if c[1] <= line]
+                if not before:
+                    bad.append(('?', line, msg)); good = []
+                    break
+                name, _, pos = before[-1]
+                orig_line = dict(ls).get(name, line)
+                bad.append((name, orig_line, msg))
+                good = [g for g in good if g != name]
+                endm = re.compile(r'\bQed\.').search(txt, pos)
+                cut_to = endm.end() if endm else len(txt)
+                # keep the line structure so that later line numbers stay meaningful
+                txt = txt[:pos] + '\n' * txt.count('\n', pos, cut_to) + txt[cut_to:]
+                open(probe, 'w').write(txt)
+                rc2, out2, err2 = _run(['timeout', '600', 'coqc', '-Q', COQ, 'VM', probe], cwd=os.path.join(ROOT, 'work'), timeout=660)
+                if rc2 == 0:
+                    break
+                m2 = re.search(r'File "[^"]+", line (\d+), characters [^\n]*\n((?:.*\n){0,6})', out2 + err2)
+                if not m2:
+                    good = []
+                    break
+                line, msg = int(m2.group(1)), ' '.join(m2.group(2).split())[:300]
+            res['discharged'] += good
+            for name, l, msg in bad:
+                res['broken'].append('geneq:%s (%s:%d) no longer holds for the current source: %s%s' % (name, rel, l, msg, why))
         elif m:
             res['broken'].append('geneq:%s: %s:%s does not compile: %s%s'
                                  % (rel, m.group(1), m.group(2), ' '.join(m.group(3).split())[:300], why))
